@@ -355,6 +355,9 @@ fn content(idx: usize, apex: &[u8], ext_target: &[u8], full: bool) -> Vec<Rec> {
     let mut mx = vec![0, 10];
     mx.extend_from_slice(&www);
     v.push(Rec::new(&sub("mx", apex), T_MX, 3600, mx));
+    // everything below dn.<apex> is redirected below ent.<apex> (RFC 6672)
+    v.push(Rec::new(&sub("dn", apex), T_DNAME, 3600, sub("ent", apex)));
+    v.push(a(&sub("b.ent", apex), [192, 0, 2, 10]));
     v.push(cname(&sub("loop1", apex), &sub("loop2", apex)));
     v.push(cname(&sub("loop2", apex), &sub("loop1", apex)));
     v
